@@ -1017,6 +1017,81 @@ def _finder_dtypes(model, rep):
         raise AnalysisError(f"only {nf} finder closures found")
 
 
+def _spatial_dimension_and_components(model, rep):
+    """(a) ``element.dim`` is the spatial dimension for scalar elements but
+    the *number of components* for ElementVector (which accepts any count).
+    Code in skfem/assembly that needs the dimension of the points has to ask
+    the mesh; a read of ``<basis>.elem.dim`` is sound only under a test that
+    the element is an ElementVector (where it means components).  probes /
+    interpolator / point_source size their probe points through
+    _base_tensor_order.  (b) probes() returns comp * npts rows, component
+    major; point_source() must hand all comp rows on (or refuse) - taking
+    row 0 silently keeps the first component of a vector / tensor basis."""
+    R3 = "C14-R3"
+    n = 0
+    for fn in model.all_functions():
+        if not fn.path.startswith("skfem/assembly/"):
+            continue
+        parent = {}
+        for a in ast.walk(fn.node):
+            for b in ast.iter_child_nodes(a):
+                parent[id(b)] = a
+        for x in ast.walk(fn.node):
+            if not (isinstance(x, ast.Attribute) and x.attr == "dim"
+                    and isinstance(x.value, ast.Attribute)
+                    and x.value.attr == "elem"
+                    and isinstance(x.ctx, ast.Load)):
+                continue
+            if isinstance(parent.get(id(x)), ast.Call) and \
+                    parent[id(x)].func is x:
+                continue                 # a method call, not the attribute
+            n += 1
+            guarded, c = False, x
+            while id(c) in parent:
+                p_ = parent[id(c)]
+                if isinstance(p_, ast.If) and "ElementVector" in src(p_.test):
+                    guarded = True
+                c = p_
+            cons = f"{fn.short()}:{src(x)}@{n}:components-not-dimension"
+            cons = f"{fn.short()}:{src(x)}:components-not-dimension"
+            if guarded:
+                rep.ok(R3, cons, "read as the number of components, under a "
+                       "test for ElementVector")
+            else:
+                rep.fail(R3, fn.path, fn.short(), cons,
+                         f"'{src(x)}' is used as the dimension of the points "
+                         f"but is the number of components for an "
+                         f"ElementVector: probes, interpolator and "
+                         f"point_source raise (too many / not enough values "
+                         f"to unpack) for ElementVector(elem, dim) with dim "
+                         f"different from the mesh dimension, which Basis, "
+                         f"asm and interpolate handle", x.lineno)
+    if n < 2:
+        raise AnalysisError(f"only {n} reads of elem.dim under "
+                            f"skfem/assembly found, 3 confirmed by hand")
+    ps = model.func("skfem.assembly.basis.cell_basis",
+                    "CellBasis.point_source")
+    rets = [r.value for r in ast.walk(ps.node) if isinstance(r, ast.Return)
+            and r.value is not None]
+    if len(rets) != 1:
+        raise AnalysisError("CellBasis.point_source: return not found")
+    row0 = any(isinstance(x, ast.Subscript) and isinstance(
+        x.slice, ast.Constant) and x.slice.value == 0 and "probes" in src(
+        x.value) for x in ast.walk(rets[0]))
+    refuses = any(isinstance(x, ast.Raise) for x in ast.walk(ps.node))
+    cons = "CellBasis.point_source:all-components"
+    if row0 and not refuses:
+        rep.fail(R3, ps.path, "CellBasis.point_source", cons,
+                 f"'{src(rets[0])[:60]}' keeps row 0 of the comp * npts rows "
+                 f"of probes(): for a vector- or tensor-valued basis the "
+                 f"result is the first component only (entries on the DOFs "
+                 f"of the other components are exactly 0), silently",
+                 rets[0].lineno)
+    else:
+        rep.ok(R3, cons, "all component rows of probes() are handed on (or "
+               "non-scalar bases are refused)")
+
+
 def run(model: Model, rep, tier: str) -> None:
     rep.rule("C14-R1", "finder error discipline and complete containment "
              "test")
@@ -1031,6 +1106,7 @@ def run(model: Model, rep, tier: str) -> None:
         raise AnalysisError(f"{n} simplex splits analysed, 4 expected")
     _modulo(model, rep)
     _probes(model, rep)
+    _spatial_dimension_and_components(model, rep)
     rep.require_min("C14-R1", 9)
     rep.require_min("C14-R2", 11)
     rep.require_min("C14-R3", 3)
@@ -1044,6 +1120,16 @@ _WE = "skfem/mesh/mesh_wedge_1.py"
 _CB = "skfem/assembly/basis/cell_basis.py"
 _LN = "skfem/mesh/mesh_line_1.py"
 MUTANTS = [
+    ("tensor-order probe sized by the element's dim",
+     ("skfem/assembly/basis/cell_basis.py",
+      "        loc_pts = np.zeros((self.mesh.dim(), 1))[:, :, np.newaxis]",
+      "        loc_pts = np.zeros((self.elem.dim, 1))[:, :, np.newaxis]"),
+     "C14-R3"),
+    ("point source keeps the first row of the probe matrix",
+     ("skfem/assembly/basis/cell_basis.py",
+      "        return (self.probes(x[:, None]).toarray()\n"
+      "                .reshape(self._base_tensor_order + (-1,)))",
+      "        return self.probes(x[:, None]).toarray()[0]"), "C14-R3"),
     ("line finder writes the end-point fix into a copy in the query's dtype",
      ("skfem/mesh/mesh_line_1.py",
       "            xin = np.array(x, dtype=np.float64)",
@@ -1129,6 +1215,11 @@ MUTANTS = [
       "self._base_tensor_order)"), "C14-R3"),
 ]
 TWINS = [
+    ("tensor-order probe sized by the mapping's mesh",
+     ("skfem/assembly/basis/cell_basis.py",
+      "        loc_pts = np.zeros((self.mesh.dim(), 1))[:, :, np.newaxis]",
+      "        loc_pts = np.zeros((self.mesh.p.shape[0], 1))[:, :, "
+      "np.newaxis]")),
     ("line finder converts the query with astype(float)",
      ("skfem/mesh/mesh_line_1.py",
       "            xin = np.array(x, dtype=np.float64)",
